@@ -8,6 +8,7 @@ from checks.common import run_components, finish_standard, replay_standard
 COMPONENTS = [
     {'name': 'c02', 'oracle': True, 'what': 'Vp8Decoder::decode_frame planes vs Spec.VP8.decode (and vs libwebp natively)'},
     {'name': 'vp8parse', 'oracle': True, 'what': 'parsing functions of vp8.rs on a real Vp8Decoder (read_frame_header and its blocks, read_macroblock_header, read_residual_data, read_coefficients, init_partitions) vs Model.Vp8Parse, incl. error variants and panics'},
+    {'name': 'vp8decode', 'oracle': True, 'what': 'the public Vp8Decoder::decode_frame vs Model.Vp8Decode.decode_frame on whole frames (valid, lf-ambiguous and damaged)'},
     {'name': 'vp8frame', 'oracle': True, 'what': 'parsing side of the real decode_frame_ (recorded per macroblock: modes, 384 residuals, flags, reader and context state) vs Model.Vp8Frame on whole frames'},
     {'name': 'vp8recon', 'oracle': True, 'what': 'reconstruction / loop filter pass / crop of the real decode_frame_ (recorded header, macroblocks, residuals, planes before and after filtering) vs Model.Vp8Recon; natively vs libwebp'},
     {'name': 'vp8predict', 'oracle': True, 'escalate': False, 'what': 'intra predictors, add_residue, borders, intra_predict_luma/chroma vs Model.Vp8Predict (natively vs libwebp dsp/dec.c formulas)'},
